@@ -274,6 +274,9 @@ impl BasicLexer {
                     }
                     if !is_basic_digit(pk) {
                         exp = false;
+                        if ch == 'D' {
+                            digits -= 8;
+                        }
                         s.pop();
                         self.chars.push_front(ch);
                         break;
